@@ -518,16 +518,14 @@ func runCase(v *sim.Verdict, rp replay) {
 	v.Count("cases_"+rp.Notation, 1)
 	if st.hidden > 0 && st.kept > 0 {
 		ts := sim.SortedKeys(st.types)
-		kinds := map[string]bool{}
-		for _, e := range append(append([]path{}, rp.Excl...), rp.ExclResp...) {
-			k := fmt.Sprintf("len%d", len(e))
-			if strings.Contains(e.cursor(), arr) {
-				k += "arr"
-			}
-			kinds[k] = true
+		arrExcl, deepExcl := false, false
+		all := append(append([]path{}, rp.Excl...), rp.ExclResp...)
+		for _, e := range all {
+			arrExcl = arrExcl || strings.Contains(e.cursor(), arr)
+			deepExcl = deepExcl || len(e) >= 3
 		}
-		v.Distinct(fmt.Sprintf("%s/%s/depth%d/arrays%d/excl%d/%v/coll%v/%v", rp.Part, rp.Notation, depthOf(doc), bucket(countArrays(doc)),
-			len(rp.Excl)+len(rp.ExclResp), sim.SortedKeys(kinds), st.collide > 0, ts))
+		v.Distinct(fmt.Sprintf("%s/%s/depth%d/arrays%d/excl%d/arr%v/deep%v/coll%v/%v", rp.Part, rp.Notation, depthOf(doc), bucket(countArrays(doc)),
+			bucket(len(all)), arrExcl, deepExcl, st.collide > 0, ts))
 	}
 }
 
@@ -869,7 +867,7 @@ func enumSets(paths []path) [][]path {
 func main() {
 	args := sim.ParseArgs()
 	v := sim.NewVerdict("C16", args.Seed, args.Tier, args.Batch, args.Out)
-	v.Rule = "case = JSON document x exclusion set x notation (cursor into Obfuscator.ObfuscateJSON with a recording MD5 hasher; '$.request.body..'/'$.response.body..' through the real HARCollector processor, both bodies judged). Part 1 bounded-exhaustive: every document of depth<=2 over keys {a,b} with <=1 array (length<=2), leaves string/number/boolean by position (x3 rotations in thorough), x every set of <=2 exclusion paths of <=3 components over {a,b,[]} (821 sets); cursor notation for all, har notation for every 4th (quick) / every 2nd (thorough). Part 2 random: depth<=5, 2-11 colliding key names (incl. case variants), nested arrays, top-level scalars/arrays, empty containers, unicode/escape strings, big numbers, 0-4 exclusions per body (existing node, suffix-collider, head-dropped, sibling, arbitrary, root). Non-trivial iff at least one leaf had to be hidden AND one had to stay verbatim; distinct by <part, notation, depth, #arrays, #exclusions, exclusion kinds, suffix-collision present, leaf types>"
+	v.Rule = "case = JSON document x exclusion set x notation (cursor into Obfuscator.ObfuscateJSON with a recording MD5 hasher; '$.request.body..'/'$.response.body..' through the real HARCollector processor, both bodies judged). Part 1 bounded-exhaustive: every document of depth<=2 over keys {a,b} with <=1 array (length<=2), leaves string/number/boolean by position (x3 rotations in thorough), x every set of <=2 exclusion paths of <=3 components over {a,b,[]} (821 sets); cursor notation for all, har notation for every 4th (quick) / every 2nd (thorough). Part 2 random: depth<=5, 2-11 colliding key names (incl. case variants), nested arrays, top-level scalars/arrays, empty containers, unicode/escape strings, big numbers, 0-4 exclusions per body (existing node, suffix-collider, head-dropped, sibling, arbitrary, root). Non-trivial iff at least one leaf had to be hidden AND one had to stay verbatim; distinct by <part, notation, depth, #arrays (0-3+), #exclusions (0-3+), array exclusion?, exclusion of >=3 components?, suffix-collision present?, set of leaf types>"
 	v.Assumptions = []string{
 		"keys contain no '.', '[' or ']' (the notation cannot express them) and are unique per object",
 		"cursor notation: '.key' per object step, '[]' per array step (all elements), '' = whole document; har notation = '$.request.body' or '$.response.body' followed by the cursor notation, as in the repository's tests",
@@ -938,7 +936,7 @@ func main() {
 	v.Extra["exhaustive_bound"] = fmt.Sprintf("%d documents x %d exclusion sets x %d leaf-type rotations, cursor notation (har notation sampled 1/%d)", len(docs), len(sets), rots, harEvery)
 
 	// part 2: random
-	nRand := args.Pick(60000, 1200000)
+	nRand := args.Pick(60000, 2400000)
 	lo, hi = args.Share(nRand)
 	for i := lo; i < hi; i++ {
 		rp := randomCase(args, i)
